@@ -523,7 +523,7 @@ def _verify_mode(contract, case, contracts, want_models, mode):
         return [dict(base, name=f"{qual}[{label}]", clause="*", verdict="checker-error", reason="SymBoolError: " + str(ex) + "\n" + traceback.format_exc(), time=time.time() - t_start)]
     if not paths:
         return [dict(base, name=f"{qual}[{label}]", clause="*", verdict="vacuous", reason="no feasible path (contradictory precondition?)", time=time.time() - t_start)]
-    if mode is not None and not any(p["out"].kind == "loop-body" for p in paths):
+    if mode is not None and not any("loop-mode-entered" in p["ctx"].notes for p in paths):
         # the arbitrary iteration was never reached: nothing was checked for this mode
         return [dict(base, name=f"{qual}[{label}]", clause="*", verdict="vacuous", reason="loop body not reached in loop mode", time=time.time() - t_start)]
     sha = front.source_sha(fn) if fn is not None else "lemma"
